@@ -468,7 +468,11 @@ class Function:
     @classmethod
     def create_task(cls, coro, ast_ctx=None):
         """Create a new task that runs a coroutine."""
-        return cls.hass.loop.create_task(cls.run_coro(coro, ast_ctx=ast_ctx))
+        task = cls.hass.loop.create_task(cls.run_coro(coro, ast_ctx=ast_ctx))
+        # known as one of ours from creation on, so that it can be cancelled before it first runs
+        cls.our_tasks.add(task)
+        task.add_done_callback(cls.our_tasks.discard)
+        return task
 
     @classmethod
     def service_register(
